@@ -29,56 +29,61 @@ InitVals ==
 
 TraceInit == Init /\ cfg = CfgOf(TraceLog[1]) /\ l = 1
 
+\* identities the recorder could not resolve are logged as 0: such a line matches no action (instead of
+\* making TLC fail on a function applied outside its domain)
+InC(c) == c \in Conns
+InR(r) == r \in Reqs
 Owner(c) == CHOOSE r \in Reqs : lent[r] = c
 PosOf(x) == CHOOSE i \in 1..Len(waitq) : waitq[i] = x
 Queued(x) == \E i \in 1..Len(waitq) : waitq[i] = x
 
 TReset == IsEvent("init") /\ InitVals
 
-TAcqIdle == IsEvent("hc.acq.idle") /\ AcquireIdle(E.r, E.c) /\ Len(idle') = E.a /\ count = E.b
-TAcqNew == /\ IsEvent("hc.acq.new") /\ E.b = MaxConns
+TAcqIdle == IsEvent("hc.acq.idle") /\ InR(E.r) /\ InC(E.c) /\ AcquireIdle(E.r, E.c) /\ Len(idle') = E.a /\ count = E.b
+TAcqNew == /\ IsEvent("hc.acq.new") /\ InR(E.r) /\ E.b = MaxConns
            /\ IF E.create = 1 THEN AcquireCreate(E.r) /\ count' = E.a
                               ELSE AcquireNone(E.r) /\ count = E.a
-TEnq == IsEvent("hc.wait.enq") /\ Enqueue(E.r, Len(waitq) + 1 - E.a) /\ count = E.b
-TReady == /\ IsEvent("hc.wait.ready")
+TEnq == IsEvent("hc.wait.enq") /\ InR(E.r) /\ Enqueue(E.r, Len(waitq) + 1 - E.a) /\ count = E.b
+TReady == /\ IsEvent("hc.wait.ready") /\ InR(E.r)
           /\ IF wst[E.r] = "delivered" THEN WaitReady(E.r)
              ELSE pc[E.r] = "waiting" /\ wst[E.r] = "failed" /\ Same
-TCancelBegin == IsEvent("hc.wait.cancel.begin") /\ CancelBegin(E.r)
-TCancel == /\ IsEvent("hc.wait.cancel") /\ CancelEnd(E.r)
+TCancelBegin == IsEvent("hc.wait.cancel.begin") /\ InR(E.r) /\ CancelBegin(E.r)
+TCancel == /\ IsEvent("hc.wait.cancel") /\ InR(E.r) /\ (E.c = 0 \/ InC(E.c)) /\ CancelEnd(E.r)
            /\ IF E.c = 0 THEN wst[E.r] # "delivered" ELSE wst[E.r] = "delivered" /\ wconn[E.r] = E.c
-TDial == IsEvent("hc.dial") /\ (IF E.c = 0 THEN DialFail(E.r) ELSE DialOk(E.r, E.c))
-TDialFor == IsEvent("hc.dialfor") /\ (IF E.c = 0 THEN DialForFail(E.x) ELSE DialForOk(E.x, E.c))
+TDial == IsEvent("hc.dial") /\ InR(E.r) /\ (E.c = 0 \/ InC(E.c)) /\ (IF E.c = 0 THEN DialFail(E.r) ELSE DialOk(E.r, E.c))
+TDialFor == IsEvent("hc.dialfor") /\ InR(E.x) /\ (E.c = 0 \/ InC(E.c)) /\ (IF E.c = 0 THEN DialForFail(E.x) ELSE DialForOk(E.x, E.c))
 
 \* decConnsCount.  who = {k: "req"|"conn"|"df", id}.  The hand-over line (hc.dec.dial) carries the state
 \* change; the closing hc.dec line of the same critical section then only checks the counter.
 DecBy(k, id) ==
-  CASE k = "req"  -> DecAfterDialFail(id)
-    [] k = "conn" -> DecAfterClose(id)
-    [] k = "df"   -> DecAfterDialFor(id)
-TDecDial == /\ IsEvent("hc.dec.dial") /\ DecBy(E.k, E.id)
+  CASE k = "req"  -> InR(id) /\ DecAfterDialFail(id)
+    [] k = "conn" -> InC(id) /\ DecAfterClose(id)
+    [] k = "df"   -> InR(id) /\ DecAfterDialFor(id)
+    [] OTHER      -> FALSE      \* a decConnsCount nobody was entitled to
+TDecDial == /\ IsEvent("hc.dec.dial") /\ InR(E.x) /\ DecBy(E.k, E.id)
             /\ Queued(E.x) /\ waitq' = SubSeq(waitq, PosOf(E.x) + 1, Len(waitq))
             /\ dfor'[E.x] = "dialing" /\ count' = E.a /\ count = E.a /\ Len(waitq') = E.b
 TDec == /\ IsEvent("hc.dec")
         /\ IF E.dialed = 1 THEN Same /\ count = E.a
            ELSE DecBy(E.k, E.id) /\ count' = count - 1 /\ count' = E.a
 
-TCloseBegin == /\ IsEvent("hc.close.begin")
+TCloseBegin == /\ IsEvent("hc.close.begin") /\ InC(E.c)
                /\ IF cstate[E.c] = "lent" THEN ReqClose(Owner(E.c)) ELSE cstate[E.c] = "closing" /\ Same
-TNetClose == IsEvent("hc.netclose") /\ (IF cstate[E.c] = "raw" THEN \E r \in Reqs : HsFail(r, E.c) ELSE NetClose(E.c))
-TRawDial == IsEvent("hc.rawdial") /\ RawDial(E.c)
-TRelBegin == /\ IsEvent("hc.rel.begin")
+TNetClose == IsEvent("hc.netclose") /\ InC(E.c) /\ (IF cstate[E.c] = "raw" THEN \E r \in Reqs : HsFail(r, E.c) ELSE NetClose(E.c))
+TRawDial == IsEvent("hc.rawdial") /\ InC(E.c) /\ RawDial(E.c)
+TRelBegin == /\ IsEvent("hc.rel.begin") /\ InC(E.c)
              /\ IF cstate[E.c] = "lent" THEN ReqRelease(Owner(E.c)) ELSE cstate[E.c] = "releasing" /\ Same
 
 \* tryDeliver under w.mu: from dialConnFor(x) with its own connection / error, or inside ReleaseConn
 TDeliver ==
-  /\ IsEvent("hc.wait.deliver")
+  /\ IsEvent("hc.wait.deliver") /\ InR(E.x) /\ (E.c = 0 \/ InC(E.c))
   /\ IF E.c = 0 THEN DialForDeliverErr(E.x) /\ ((E.ok = 1) <=> Deliverable(E.x))
      ELSE IF dfor[E.x] = "gotconn" /\ dfconn[E.x] = E.c
           THEN DialForDeliver(E.x) /\ ((E.ok = 1) <=> Deliverable(E.x))
           ELSE IF E.ok = 1 THEN Queued(E.x) /\ ReleaseDeliverK(E.c, PosOf(E.x))
                ELSE cstate[E.c] = "releasing" /\ wst[E.x] \in {"delivered", "taken", "failed", "cancelled"} /\ Same
 \* end of the ReleaseConn critical section
-TRelease == /\ IsEvent("hc.release") /\ count = E.b
+TRelease == /\ IsEvent("hc.release") /\ InC(E.c) /\ count = E.b
             /\ IF E.delivered = 1 THEN cstate[E.c] # "idle" /\ Len(idle) = E.a /\ Same
                ELSE ReleaseIdle(E.c) /\ Len(idle') = E.a
 
